@@ -331,7 +331,9 @@ fn run_worker(cfg: &RunCfg, id: &str, lane: &Lane, worker: usize, cases: u64) ->
         failure_persistence: None,
         source_file: None,
         test_name: None,
-        max_shrink_time: 0,
+        // shrinking is bounded in time as well: where one failing evaluation costs seconds (real sockets, bounded-liveness
+        // waits) the default 6000 iterations would run for hours
+        max_shrink_time: std::env::var("VERIF_MAX_SHRINK_MS").ok().and_then(|v| v.parse().ok()).unwrap_or(45_000),
         max_shrink_iters: std::env::var("VERIF_MAX_SHRINK").ok().and_then(|v| v.parse().ok()).unwrap_or(6000),
         max_default_size_range: 100,
         verbose: 0,
